@@ -60,7 +60,7 @@ def prepend_form(ev, fn_term, module):
         return False, t
     c = t[1]
     lst = c[2][0] if c[2] else None
-    if not (is_t(lst, "list") and len(lst[1]) == 2 and lst[1][1] == ("leaf", xs)):
+    if not ((is_t(lst, "list") or is_t(lst, "tuple")) and len(lst[1]) == 2 and lst[1][1] == ("leaf", xs)):  # concatenate takes any sequence
         return False, t
     if dict(c[3]).get("axis", C(0)) != C(0) or (len(c[2]) > 1 and c[2][1] != C(0)) or dict(c[3]).get("dtype") or any(is_mcall(x, "astype") for x in subterms(c)):
         return False, t
@@ -338,9 +338,10 @@ def analyse(obs: Obs, prog):
     obs.add({"C01", "C12"}, "IDX-ALIGN", "Scan.edit_index/stacked-out", oky, derived=ys, expected="old outputs .at[idx].set(new slice output) - the leading axis is the iteration axis", where=w)
     # inner trace write-back at idx and idx+1 (guarded)
     inn = f.get("inner")
-    def mut(base, pos, val):
-        return ("treemap", ("atset", ("leaf", base), pos, ("where", ("cmp", "<", pos, MAXL), ("leaf", val), ("index", ("leaf", base), pos))), (base, val))
-    want_inn = mut(mut(tin, IDX, mk_proj(E1, 0)), ("bin", "+", IDX, C(1)), mk_proj(E2, 0))
+    # (consecutive leafwise maps are one fused map over (old inner, edited slice, revisited slice))
+    def mutl(base_leaf, pos, val):
+        return ("atset", base_leaf, pos, ("where", ("cmp", "<", pos, MAXL), ("leaf", val), ("index", base_leaf, pos)))
+    want_inn = ("treemap", mutl(mutl(("leaf", tin), IDX, mk_proj(E1, 0)), ("bin", "+", IDX, C(1)), mk_proj(E2, 0)), (tin, mk_proj(E1, 0), mk_proj(E2, 0)))
     obs.add({"C01", "C12", "C05"}, "IDX-ALIGN", "Scan.edit_index/write-back", inn == want_inn, derived=inn, expected="slots idx and idx+1 (when in range) replaced by the edited / revisited slices", where=w)
     obs.add({"C01", "C02", "C12"}, "SCORE-AGG", "Scan.edit_index/score", f.get("score") == jsum(("stack", score_of(("elem", inn)))), derived=f.get("score"), expected="sum of the updated stacked kernel scores", where=w)
     obs.add({"C01", "C12"}, "TRACE-ARGS", "Scan.edit_index", f.get("args") == PRA, derived=f.get("args"), expected="Diff.tree_primal(argdiffs)", where=w)
